@@ -458,11 +458,13 @@ Definition print_then (r : step_res) (w : st -> res unit) (x : st) : res unit :=
   | SPanic => RPanic x
   end.
 
+Definition op_output (m : gmode) (o : opf) : str := set_extension (op_path o) (mode_ext m).
+
 Fixpoint gen_ops (m : gmode) (ops : list opf) (x : st) : res unit :=
   match ops with
   | [] => ROk tt x
   | o :: r =>
-      match print_then (op_print o) (write_file_and_sourcemap KOp (set_extension (op_path o) (mode_ext m))) x with
+      match print_then (op_print o) (write_file_and_sourcemap KOp (op_output m o)) x with
       | ROk _ x' => gen_ops m r x'
       | e => e
       end
@@ -471,43 +473,42 @@ Fixpoint gen_ops (m : gmode) (ops : list opf) (x : st) : res unit :=
 Definition opt_step {A} (o : option A) (f : A -> st -> res unit) (x : st) : res unit :=
   match o with None => ROk tt x | Some a => f a x end.
 
+Definition rbind {A B} (m : res A) (f : A -> st -> res B) : res B :=
+  match m with
+  | ROk a x => f a x
+  | RErr e x => RErr e x
+  | RPanic x => RPanic x
+  end.
+
+Definition is_some {A} (o : option A) : bool := match o with Some _ => true | None => false end.
+
+Definition abs_output (p : proj) (o : option str) : option str := option_map (path_join (pj_root p)) o.
+
+(** the schema output is a .d.ts file *)
+Definition is_dts (so : option str) : bool :=
+  match so with
+  | Some o => match file_name o with Some n => ends_with (s ".d.ts") n | None => false end
+  | None => false
+  end.
+
 (** generate.rs run_generate after the (possibly implicit) check *)
 Definition generate_body (p : proj) (x0 : st) : res ctx :=
   let g := pj_gen p in
   let x := add_run x0 GENERATE in
-  if is_nil (match g_schema_output g with Some o => [o] | None => [] end) && negb (g_module_specifier g)
+  if negb (is_some (g_schema_output g)) && negb (g_module_specifier g)
   then RErr (plain (s "Option 'schemaOutput' is required for the 'generate' command. ")) x
   else
-    let so := option_map (path_join (pj_root p)) (g_schema_output g) in
-    if g_emit_runtime g
-       && match so with
-          | Some o => match file_name o with Some n => ends_with (s ".d.ts") n | None => false end
-          | None => false
-          end
+    let so := abs_output p (g_schema_output g) in
+    if g_emit_runtime g && is_dts so
     then RErr (plain (s "Cannot emit code including runtime to a .d.ts file.")) x
     else
-      match opt_step so (fun o => print_then (pj_print_schema p) (write_file_and_sourcemap KSchema o)) x with
-      | ROk _ x1 =>
-          match opt_step (option_map (path_join (pj_root p)) (g_server_output g))
-                  (fun o => print_then (pj_print_server p) (write_file_without_sourcemap KGraphql o)) x1 with
-          | ROk _ x2 =>
-              match opt_step (option_map (path_join (pj_root p)) (g_resolvers_output g))
-                      (fun o => print_then (pj_print_resolvers p) (write_file_and_sourcemap KResolvers o)) x2 with
-              | ROk _ x3 =>
-                  match gen_ops (g_mode g) (pj_ops p) x3 with
-                  | ROk _ x4 => ROk Resolved (log_line x4 (s "'generate' finished"))
-                  | RErr e y => RErr e y
-                  | RPanic y => RPanic y
-                  end
-              | RErr e y => RErr e y
-              | RPanic y => RPanic y
-              end
-          | RErr e y => RErr e y
-          | RPanic y => RPanic y
-          end
-      | RErr e y => RErr e y
-      | RPanic y => RPanic y
-      end.
+      rbind (opt_step so (fun o => print_then (pj_print_schema p) (write_file_and_sourcemap KSchema o)) x) (fun _ x1 =>
+      rbind (opt_step (abs_output p (g_server_output g))
+               (fun o => print_then (pj_print_server p) (write_file_without_sourcemap KGraphql o)) x1) (fun _ x2 =>
+      rbind (opt_step (abs_output p (g_resolvers_output g))
+               (fun o => print_then (pj_print_resolvers p) (write_file_and_sourcemap KResolvers o)) x2) (fun _ x3 =>
+      rbind (gen_ops (g_mode g) (pj_ops p) x3) (fun _ x4 =>
+      ROk Resolved (log_line x4 (s "'generate' finished")))))).
 
 Definition run_generate (p : proj) (c : ctx) (x : st) : res ctx :=
   match c with
@@ -583,7 +584,7 @@ Definition run_cli_impl (p : proj) : impl_res * st * list sfile :=
     | (files, None) =>
         let files := files ++ virtual_files p ++ op_files p in
         match filter_some (map op_parse (pj_ops p)) with
-        | _ :: _ as errs => (IErr None errs, st0, files)
+        | (_ :: _) as errs => (IErr None errs, st0, files)
         | [] => let '(r, x) := run_commands p (pj_commands p) Unresolved st0 in (r, x, files)
         end
     end
@@ -693,32 +694,37 @@ Definition exit_status (o : outcome) : N :=
   | Crash _ _ => 0
   end.
 
+(** run_cli: exit code and CliOutput::command_error from the result of run_cli_impl;
+    [None] = print_positioned_error panicked *)
+Definition command_error (files : list sfile) (r : impl_res) : option (N * option (option str * str)) :=
+  match r with
+  | IErr cmd errs =>
+      match render_all files errs with
+      | None => None
+      | Some ms => Some (1, Some (cmd, join [NL] ms))
+      end
+  | _ => Some (0, None)
+  end.
+
+Definition render (f : fmt) (files : list sfile) (x : st) (code : N) (cerr : option (option str * str)) : outcome :=
+  match f with
+  | Human =>
+      match human_text files x cerr with
+      | None => Crash (st_log x) (st_written x)
+      | Some t => Exit code [] (st_log x ++ t) (st_written x)
+      end
+  | Json => Exit code (print_json (json_tree files x cerr) ++ [NL]) (st_log x) (st_written x)
+  | Rdjson => Exit code (print_json (rdjson_tree files x cerr) ++ [NL]) (st_log x) (st_written x)
+  end.
+
 (** main.rs run_cli *)
 Definition run (p : proj) : outcome :=
   let '(r, x, files) := run_cli_impl p in
   match r with
   | IPanic => Crash (st_log x) (st_written x)
   | _ =>
-      let code_cerr :=
-        match r with
-        | IErr cmd errs =>
-            match render_all files errs with
-            | None => None
-            | Some ms => Some (1, Some (cmd, join [NL] ms))
-            end
-        | _ => Some (0, None)
-        end in
-      match code_cerr with
+      match command_error files r with
       | None => Crash (st_log x) (st_written x)
-      | Some (code, cerr) =>
-          match pj_format p with
-          | Human =>
-              match human_text files x cerr with
-              | None => Crash (st_log x) (st_written x)
-              | Some t => Exit code [] (st_log x ++ t) (st_written x)
-              end
-          | Json => Exit code (print_json (json_tree files x cerr) ++ [NL]) (st_log x) (st_written x)
-          | Rdjson => Exit code (print_json (rdjson_tree files x cerr) ++ [NL]) (st_log x) (st_written x)
-          end
+      | Some (code, cerr) => render (pj_format p) files x code cerr
       end
   end.
